@@ -239,3 +239,84 @@ Proof.
   - apply generic_format_round; [exact Hve|apply valid_rnd_of].
   - apply round_DN_or_UP. apply valid_rnd_of.
 Qed.
+
+(* ---------------------------------------------------------------- MPBFixed: overflow rule incl. wrap-around by ordinal *)
+Definition overflow_result_fixed (nmin : Z) (pos_max neg_max : rf) (rm : rmode) (ov : ovmode) (sp : special)
+    (s : bool) (y : rf) : result rfl :=
+  let maxv := FFin (if rs y then neg_max else pos_max) in
+  match ov with
+  | OV_OVERFLOW =>
+      if overflow_to_infinity rm (rs y) then
+        if sp_enable_inf sp then Ok (FInf s, fl_ovf_flags)
+        else match sp_inf_value sp with None => Err ValueErr | Some v => Ok (v, fl_ovf_flags) end
+      else Ok (maxv, fl_ovf_flags)
+  | OV_SATURATE => Ok (maxv, fl_ovf_flags)
+  | OV_WRAP =>
+      let neg_ord := fixed_to_ordinal nmin neg_max in
+      let pos_ord := fixed_to_ordinal nmin pos_max in
+      Ok (FFin (fixed_from_ordinal nmin ((fixed_to_ordinal nmin y - neg_ord) mod (pos_ord - neg_ord + 1) + neg_ord)), fl_ovf_flags)
+  | OV_ASSERT => Err OverflowErr
+  end.
+
+Theorem mpbfixed_round_spec nmin pos_max neg_max rm ov sp nz x rb :
+  rf_wf x -> rc x <> 0 ->
+  rf_wf pos_max -> rf_wf neg_max -> rs pos_max = false -> (rs neg_max = true \/ rc neg_max = 0) ->
+  let r := round radix2 (FIX_exp (nmin + 1)) (rnd_of rm) (R2R x) in
+  exists y f0, rf_round x None (Some nmin) rm false = Ok (y, f0) /\ R2R y = r /\
+  (in_range pos_max neg_max r ->
+     exists y' f, round_mpbfixed nmin pos_max neg_max rm ov (Some 0) sp nz (FFin x) None rb = Ok (FFin y', f) /\
+       R2R y' = r /\ (f_inexact f = false <-> R2R y' = R2R x) /\ f_overflow f = false) /\
+  (~ in_range pos_max neg_max r ->
+     round_mpbfixed nmin pos_max neg_max rm ov (Some 0) sp nz (FFin x) None rb =
+     overflow_result_fixed nmin pos_max neg_max rm ov sp (rs x) y).
+Proof.
+  intros Hw Hnz Hpm Hnm Sp Sn r.
+  assert (Hsome : (@None Z) <> None \/ Some nmin <> None) by (right; discriminate).
+  assert (Hpp : match (@None Z) with Some p0 => 1 <= p0 | None => True end) by exact I.
+  pose proof (rf_round_spec x None (Some nmin) rm Hw Hnz Hpp Hsome) as HRS.
+  destruct HRS as (y & f & Hr & Hv & Hs & Hwy & Hi & Ho).
+  cbn [fexp_of] in Hv. fold r in Hv.
+  exists y, f. split; [exact Hr|]. split; [exact Hv|].
+  pose proof (is_overflowing_spec pos_max neg_max y Hpm Hnm Hwy Sp Sn) as Hov. rewrite Hv in Hov.
+  assert (Hred : round_mpbfixed nmin pos_max neg_max rm ov (Some 0) sp nz (FFin x) None rb =
+     if is_overflowing pos_max neg_max y then overflow_result_fixed nmin pos_max neg_max rm ov sp (rs x) y
+     else Ok (FFin (fix_neg_zero nz y), f)).
+  { unfold round_mpbfixed, special_fixed, is_zero, clamp_n_fixed.
+    destruct (Z.eqb_spec (rc x) 0); [contradiction|].
+    unfold rf_round_k. rewrite Hr. cbn [bind].
+    unfold overflow_result_fixed. destruct (is_overflowing pos_max neg_max y); reflexivity. }
+  assert (Hsame : R2R (fix_neg_zero nz y) = R2R y).
+  { unfold fix_neg_zero, is_zero. destruct (Z.eqb_spec (rc y) 0) as [Z0|Z0]; [|reflexivity].
+    cbn [andb]. destruct (rs y && negb nz); [|reflexivity]. rewrite !R2R_zero by (simpl; assumption). reflexivity. }
+  split.
+  - intros Hin. apply Hov in Hin. rewrite Hred, Hin. exists (fix_neg_zero nz y), f.
+    rewrite Hsame. auto.
+  - intros Hout. rewrite Hred.
+    destruct (is_overflowing pos_max neg_max y) eqn:E; [reflexivity|].
+    exfalso. apply Hout. apply Hov. reflexivity.
+Qed.
+
+(* wrap-around lands inside the ordinal range, on the ordinal congruent to the rounded value's *)
+Theorem wrap_ordinal_spec o neg_ord pos_ord :
+  neg_ord <= pos_ord ->
+  let total := pos_ord - neg_ord + 1 in
+  let o' := (o - neg_ord) mod total + neg_ord in
+  neg_ord <= o' <= pos_ord /\ (o' - o) mod total = 0.
+Proof.
+  intros Hle total o'.
+  assert (Ht : 0 < total) by (unfold total; lia).
+  pose proof (Z.mod_pos_bound (o - neg_ord) total Ht) as Hb.
+  pose proof (Z.div_mod (o - neg_ord) total ltac:(lia)) as Hdm.
+  split; [unfold o', total in *; lia|].
+  replace (o' - o) with (- ((o - neg_ord) / total) * total) by (unfold o'; lia).
+  apply Z.mod_mul. lia.
+Qed.
+
+Theorem fixed_ordinal_roundtrip nmin o : fixed_to_ordinal nmin (fixed_from_ordinal nmin o) = o.
+Proof.
+  unfold fixed_from_ordinal, fixed_to_ordinal, is_zero.
+  destruct (Z.eqb_spec o 0) as [->|Ho]; [reflexivity|].
+  cbn [rc rexp rs]. destruct (Z.eqb_spec (Z.abs o) 0); [lia|].
+  replace (nmin + 1 - (nmin + 1)) with 0 by lia. cbn [Z.gtb Z.ltb Z.compare].
+  destruct (Z.ltb_spec o 0); lia.
+Qed.
